@@ -32,6 +32,7 @@ class EFLRSetsDict(defaultdict):
                                f"already added to the file")
 
         self[eflr_set.__class__][eflr_set.set_name] = eflr_set
+        eflr_set.sets_of_same_type = self[eflr_set.__class__]
 
     def try_add_set(self, eflr_set: EFLRSet) -> bool:
         """Try to register a new EFLRSet instance in the structure. Return True on success, False otherwise."""
@@ -40,6 +41,7 @@ class EFLRSetsDict(defaultdict):
             return False
         else:
             self[eflr_set.__class__][eflr_set.set_name] = eflr_set
+            eflr_set.sets_of_same_type = self[eflr_set.__class__]
             return True
 
     def get_or_make_set(self, eflr_set_type: type[AnyEFLRSet], set_name: Optional[str] = None) -> AnyEFLRSet:
@@ -63,6 +65,7 @@ class EFLRSetsDict(defaultdict):
         if eflr_set_instance is None:
             eflr_set_instance = eflr_set_type(set_name=set_name)
             eflr_set_dict[set_name] = eflr_set_instance
+            eflr_set_instance.sets_of_same_type = eflr_set_dict
 
         return eflr_set_instance
 
